@@ -69,7 +69,13 @@ func sweepInputs(n *Node) []sweepInput {
 			sweepInput{class: "index-out-of-range", p: mk(dbft.ChangeViewType, h, v, idx, &changeView{newView: v + 1, ts: 1})},
 			sweepInput{class: "index-out-of-range", p: mk(dbft.PrepareRequestType, h, v, idx, &prepReq{ts: 5, nonce: 1})},
 			sweepInput{class: "index-out-of-range", p: mk(dbft.CommitType, h, v, idx, &commitBody{sig})},
-			sweepInput{class: "index-out-of-range", p: mk(dbft.RecoveryRequestType, h, v, idx, &recReq{1})})
+			sweepInput{class: "index-out-of-range", p: mk(dbft.RecoveryRequestType, h, v, idx, &recReq{1})},
+			// ... also when tagged with a later view or height (must not be parked in the future-message cache either:
+			// "no effect beyond noting that the sender is alive")
+			sweepInput{class: "index-out-of-range", p: mk(dbft.CommitType, h, v+1, idx, &commitBody{sig})},
+			sweepInput{class: "index-out-of-range", p: mk(dbft.CommitType, h+1, 0, idx, &commitBody{sig})},
+			sweepInput{class: "index-out-of-range", p: mk(dbft.ChangeViewType, h+1, 0, idx, &changeView{newView: 1, ts: 1})},
+			sweepInput{class: "index-out-of-range", p: mk(dbft.PrepareResponseType, h+2, 0, idx, &prepResp{H(0x79)})})
 	}
 	// (2) past heights
 	if h > 0 {
